@@ -516,6 +516,10 @@ func (uv *UtxoVM) GetBalance(addr string) (*big.Int, error) {
 		uv.mutexBalance.Unlock()
 		return balanceCopy, nil
 	}
+	// 扫表填充cache期间不能有交易/区块正在执行: 它们先改cache里的余额再落盘, 如果扫到的是落盘前的数据,
+	// 而cache在它们改完余额之后才填充, 这笔变动就永远丢了
+	uv.Mutex.Lock()
+	defer uv.Mutex.Unlock()
 	addrPrefix := fmt.Sprintf("%s%s_", pb.UTXOTablePrefix, addr)
 	utxoTotal := big.NewInt(0)
 	uv.mutexBalance.Lock()
